@@ -299,6 +299,55 @@ def overflow(check, proj, name, tier):
         check.ok("MAG-MUST-OVERFLOW", f.qualname, "no intermediate must overflow on any of the %d boxes covering |a|,|b| in [1e-150,1e150], both signs" % nbox, f.loc())
 
 
+def fresh_result(check, proj, name):
+    """LIM-FRESH: "elementwise on arrays" is a statement about VALUES the caller can keep: the result of one call
+    must not be storage that a later call overwrites.  A limiter whose result is written into (out=...) or is
+    a module-level container / an array handed out by a helper that keeps it in one (a scratch array per shape)
+    returns the same object for every call of that shape: two kept results are one array."""
+    import ast
+    mod = proj.module("xnum")
+    f = mod.functions[name]
+    # module-level mutable state: names bound at module level to a container display or to a call
+    glob = {n for n, e in mod.assigns.items() if isinstance(e, (ast.Dict, ast.List, ast.Set, ast.Call, ast.DictComp, ast.ListComp))}
+    keepers = set()      # module-level functions that hand out (part of) such state
+    changed = True
+    while changed:
+        changed = False
+        for g in mod.functions.values():
+            if g.name in keepers:
+                continue
+            rets = [r.value for r in ast.walk(g.node) if isinstance(r, ast.Return) and r.value is not None]
+            for r in rets:
+                if any(isinstance(n, ast.Name) and n.id in glob for n in ast.walk(r)) or any(isinstance(n, ast.Call) and isinstance(n.func, ast.Name) and n.func.id in keepers for n in ast.walk(r)):
+                    keepers.add(g.name)
+                    changed = True
+                    break
+
+    def shared(e):
+        for n in ast.walk(e):
+            if isinstance(n, ast.Name) and n.id in glob:
+                return "the module-level container `%s`" % n.id
+            if isinstance(n, ast.Call) and isinstance(n.func, ast.Name) and n.func.id in keepers:
+                return "`%s(...)`, which hands out an array kept in a module-level container" % n.func.id
+        return None
+    bad = None
+    for n in ast.walk(f.node):
+        if isinstance(n, ast.Call):
+            for k in n.keywords:
+                if k.arg == "out":
+                    w = shared(k.value)
+                    if w:
+                        bad = (n.lineno, "the result is written into %s (out=)" % w)
+        if isinstance(n, ast.Return) and n.value is not None and not isinstance(n.value, ast.Call):
+            w = shared(n.value) if isinstance(n.value, (ast.Name, ast.Subscript, ast.Attribute)) else None
+            if w:
+                bad = (n.lineno, "the function returns %s" % w)
+    if bad:
+        check.violation("LIM-FRESH", f.qualname, "%s (line %d): every call with operands of the same shape returns the SAME array object, so a result kept by the caller (a list of limited slopes, the two sides of a face) is overwritten by the next call" % (bad[1], bad[0]), f.loc(), key="shared-result")
+    else:
+        check.ok("LIM-FRESH", f.qualname, "the result is a fresh value: no out= into, and no return of, module-level storage", f.loc(), nontrivial=False)
+
+
 def body(check):
     proj = check.proj
     check.explanation = ("static analysis: each limiter body is lowered to the GVN ring and evaluated on an exhaustive partition of "
@@ -315,3 +364,4 @@ def body(check):
         check.guarded("LIM-REGION", "xnum." + n, lambda: analyse(check, proj, n))
         check.guarded("MAG-MUST-OVERFLOW", "xnum." + n, lambda: overflow(check, proj, n, check.tier))
         check.guarded("LIM-ROUND", "xnum." + n, lambda: rounding(check, proj, n))
+        check.guarded("LIM-FRESH", "xnum." + n, lambda: fresh_result(check, proj, n))
